@@ -2,7 +2,7 @@ SPECIFICATION BSpec
 CONSTANTS
   System <- SysC206
   Alphabet <- AlphaC206
-  MaxLen = 10
+  MaxLen = 8
   Lint = TRUE
   SortVariant = "code"
   StaleOK = TRUE
